@@ -981,8 +981,15 @@ def main():
             job = ex0.get("job")
             if not job:
                 raise ToolError("the replay file records no job")
+            # (the recorded job key leaves out walks / steps / timeout: take them from the registered job)
+            for j in jobs_for(pid, tier) or []:
+                if job_key(j) == ex0.get("jobkey"):
+                    job = dict(j)
+                    break
+            job.setdefault("steps", 400 if tier == "quick" else 2000)
+            job.setdefault("walks", 30 if tier == "quick" else 200)
             job["tag"] = "replay-" + job.get("tag", "x")
-            bins = build_all(["debug", "release"])
+            bins = build_all(sorted({"debug", "release"} | set(job.get("profiles", []))))
             only = ex0.get("transition") if job.get("spec") != "trace" and isinstance(ex0.get("transition"), dict) else None
             st, outs, table, jkey, tag = one_job(pid, tier, seed, job, bins, only=only)
             gate = GATES.get(pid, {pid, "CRASH"}) | {"SPEC"}
